@@ -158,10 +158,15 @@ def gen_row(rng, world: dict, year: int, line: int) -> dict:
     y = year
     if kind == 'single':
         d0 = date(y, 1, 1) + timedelta(days=rng.randint(0, 364))
+        if rng.random() < 0.3:      # calendar corners
+            d0 = rng.choice([date(y, 1, 1), date(y, 12, 31), date(y, 2, 28), date(y, 3, 1)]
+                            + ([date(y, 2, 29)] if y % 4 == 0 else []))
         d1 = d0
     elif kind == 'week':
         d0 = date(y, 1, 1) + timedelta(days=rng.randint(0, 350))
-        d1 = d0 + timedelta(days=rng.randint(1, 13))
+        if rng.random() < 0.25:     # around the end of February / of the year
+            d0 = rng.choice([date(y, 2, 24), date(y, 12, 20)]) + timedelta(days=rng.randint(0, 3))
+        d1 = min(date(y, 12, 31), d0 + timedelta(days=rng.randint(1, 13)))
     elif kind == 'dst-spring':
         d0 = date(y, 3, rng.randint(1, 12))
         d1 = date(y, rng.choice([3, 4]), rng.randint(25, 30))
